@@ -1,6 +1,8 @@
 """Spike 2: pre-compiled execution (each MIR statement is parsed once into a Python closure)."""
 import re
 from engine import *
+from engine import GENERIC_FNS
+from mirparse import split_top
 import engine as E
 
 class FastEngine(Engine):
@@ -173,6 +175,13 @@ class FastEngine(Engine):
                 def calld(fr):
                     setd(fr, self.call_value(cv(fr), [o(fr) for o in ops])); return nxt
                 return calld
+            gn = GENERIC_FNS.get(re.sub(r"::\{closure#\d+\}", "", fn.name).split("::")[-1])
+            if gn and any(re.search(r"(?<![\w:])%s(?![\w:])" % re.escape(k), callee) for k in gn):
+                def callg(fr):
+                    name = callee
+                    for k, v in (fr.tysubst or {}).items(): name = re.sub(r"(?<![\w:])%s(?![\w])" % re.escape(k), v, name)
+                    setd(fr, self.call(name, [], [o(fr) for o in ops])); return nxt
+                return callg
             target = self.prepare_call(callee)
             def callc(fr):
                 setd(fr, target([o(fr) for o in ops])); return nxt
@@ -187,7 +196,14 @@ class FastEngine(Engine):
         if f is None:
             m = re.match(r"^<(.+) as ([\w:]+)(<.*>)?>::(\w+)$", name)
             if m: f = self.fns.get(f"{m.group(2).split('::')[-1]}::{m.group(4)}")
-        if f is not None: return lambda args: self.run_fn(f, args)
+        if f is not None:
+            gnames = GENERIC_FNS.get(re.sub(r"::\{closure#\d+\}", "", f.name).split("::")[-1])
+            if gnames:
+                _, gens = strip_turbofish(name)
+                gl = split_top(gens[-1]) if gens else []
+                subst = {k: v for k, v in zip(gnames, gl) if re.match(r"^[A-Z]\w*$", k)}
+                return lambda args: self.run_fn(f, args, subst)
+            return lambda args: self.run_fn(f, args)
         n, g = strip_turbofish(name)
         ms = find_models(n)
         if len(ms) == 1:
@@ -215,7 +231,7 @@ class FastEngine(Engine):
         if t is None: t = self.prepare_call(name); self.cache[key] = t
         return t(args)
 
-    def run_fn(self, f, args):
+    def run_fn(self, f, args, tysubst=None):
         code = getattr(f, "code", None)
         if code is None:
             code = {}
@@ -224,6 +240,7 @@ class FastEngine(Engine):
             try: f.code = code
             except AttributeError: self.cache[("code", f.name)] = code
         fr = Frame(f)
+        fr.tysubst = tysubst
         for i, a in zip(f.args, args): fr.locals[i] = a
         self.depth += 1
         if self.depth > self.max_depth: raise Panic("recursion budget exceeded (%d interpreter frames) in %s" % (self.max_depth, f.name))
